@@ -28,6 +28,9 @@
 #ifndef ILACE
 #define ILACE 0
 #endif
+#ifndef FIXN
+#define FIXN 1
+#endif
 /* configuration of the transmitter the tables were made for */
 #define SVC C04_TAB_SVC
 #define SCANNING C04_TAB_SCANNING
@@ -45,7 +48,9 @@ static vbi_sliced OUT[3];                        /* 2 records + guard */
 static vbi3_raw_decoder RD;
 static uint8_t PAY[NBYTES];
 
-static unsigned paybit(unsigned q) { return (PAY[q >> 3] >> (q & 7)) & 1; }
+static uint8_t BITS[NBITS];                      /* the payload bit by bit (so that case-split bits are constants for symex) */
+
+static unsigned paybit(unsigned q) { return BITS[q]; }
 
 static void put_sample(uint8_t *row, unsigned i, unsigned v)
 {
@@ -76,6 +81,26 @@ V_HARNESS(h_wave)
 #endif
   if (NBITS & 7) PAY[NBYTES - 1] &= (1u << (NBITS & 7)) - 1;
   guard1 = OUT[1]; guard2 = OUT[2];
+  for (i = 0; i < NBITS; i++) BITS[i] = (PAY[i >> 3] >> (i & 7)) & 1;
+#ifdef FIXVAL
+  /* case split (grid: FIXVAL = 0 .. 2^FIXN - 1) on the FIRST FIXN transmitted payload bits, for services whose payload
+   * follows the clock run-in without a framing code (VPS, WSS): these bits shape the samples next to the last
+   * run-in bit and thereby the slicer's clock recovery; with them symbolic the CRI search forks at every position. */
+  {
+    unsigned qs[4], nq = 0, k, have;
+    for (i = 0; i < SPL && nq < FIXN; i++)
+      for (k = 0; k < c04_nd[i] && nq < FIXN; k++) {
+        unsigned q = c04_dep[i][k], z;
+        have = 0;
+        for (z = 0; z < nq; z++) have |= qs[z] == q;
+        if (!have) qs[nq++] = q;
+      }
+    for (k = 0; k < nq; k++) {
+      BITS[qs[k]] = ((unsigned) (FIXVAL) >> k) & 1u;
+      PAY[qs[k] >> 3] = (uint8_t) ((PAY[qs[k] >> 3] & ~(1u << (qs[k] & 7))) | ((((unsigned) (FIXVAL) >> k) & 1u) << (qs[k] & 7)));
+    }
+  }
+#endif
 
   /* the transmitted image: signal row from the tables, the other row blank (= the generator's blanking level) */
   for (i = 0; i < SPL; i++) {
@@ -128,7 +153,7 @@ V_HARNESS(h_wave)
 #define ILACE 0
 #endif
 #define LINES (C0 + C1)
-#define BPL 2048
+#define BPL 12             /* multiple of 1,2,3,4: every pixel format admissible; the image is never read here */
 #define MAXOUT (LINES + 1)
 
 static vbi3_raw_decoder RD;
